@@ -293,9 +293,25 @@ def b_iter(I, a, k, node):
     return Unk('iter', kinds=['obj'], taint=tj(v), src=('iter-of', v))
 
 
+def b_reversed(I, a, k, node):
+    from sa.values import AIter
+    v = a[0]
+    definite = (isinstance(v, AList) and not v.unknown) or (is_concrete(v) and isinstance(concrete(v), (tuple, list)))
+    if definite:
+        return AIter(list(reversed(M.iterate(I, v, node))))
+    return Unk('reversed', kinds=['obj'], taint=tj(v), src=('iter-of', v))
+
+
 def b_next(I, a, k, node):
     from sa.values import AIter
     it = a[0]
+    if isinstance(it, AList) and not it.unknown and isinstance(node, ast.Call) and node.args and isinstance(node.args[0], ast.GeneratorExp):
+        # a generator expression is evaluated eagerly by the model: next() takes its first element
+        if it.items:
+            return it.items[0]
+        if len(a) > 1:
+            return a[1]
+        _raise(I, node, 'StopIteration', 'iterator exhausted')
     if isinstance(it, AIter):
         if it.pos < len(it.items):
             it.pos += 1
@@ -610,7 +626,7 @@ def b_any(I, a, k, node):
 GLOBALS = {
     'len': b_len, 'isinstance': b_isinstance, 'type': b_type, 'int': b_int, 'str': b_str,
     'repr': b_repr, 'sorted': b_sorted, 'range': b_range, 'enumerate': b_enumerate, 'dict': b_dict,
-    'iter': b_iter, 'next': b_next, 'min': b_minmax, 'max': b_minmax, 'getattr': b_getattr, 'setattr': b_setattr,
+    'iter': b_iter, 'next': b_next, 'reversed': b_reversed, 'min': b_minmax, 'max': b_minmax, 'getattr': b_getattr, 'setattr': b_setattr,
     'super': b_super, 'bool': b_bool, 'list': b_list, 'tuple': b_tuple, 'hasattr': b_hasattr,
     'sum': b_sum, 'any': b_any, 'all': b_any, 'print': b_print,
     'json.loads': b_json_loads, 'json.dumps': b_json_dumps, 're.compile': b_re_compile,
